@@ -39,7 +39,7 @@ NoDup(c) == Cardinality(ToSet(c.nondust)) = Len(c.nondust) /\ Cardinality(ToSet(
 TraceInit ==
   /\ l = 1 /\ nodeOf = <<>> /\ saved = <<>> /\ everRAA = <<>> /\ projB = <<>>
   /\ fw = [adds |-> {}, downFul |-> {}, upClaimed |-> {}, settledNow |-> {}, base0 |-> <<>>, pol |-> <<>>,
-           shut |-> {}, closeFee |-> <<>>, newInfl |-> {}, crashed |-> {}, liveAtCrash |-> {}, snapKnows |-> <<>>, needSent |-> {}, owed |-> {}, settled |-> FALSE, pays |-> {}, claimedEv |-> {}, sentEv |-> {}, failEv |-> {}, lastMgr |-> <<>>]
+           shut |-> {}, closeFee |-> <<>>, newInfl |-> {}, crashed |-> {}, liveAtCrash |-> {}, snapKnows |-> <<>>, needSent |-> {}, owed |-> {}, settled |-> FALSE, pays |-> {}, claimedEv |-> {}, sentEv |-> {}, failEv |-> {}, lastMgr |-> <<>>, cuid |-> <<>>]
   /\ par = <<>> /\ cnt = <<>> /\ hs = <<>> /\ fees = <<>> /\ feeBase = <<>> /\ base = <<>>
   /\ link = <<>> /\ redo = <<>> /\ lastCS = <<>> /\ order = <<>> /\ pts = <<>> /\ mon = <<>>
   /\ ownExp = <<>>
@@ -72,7 +72,7 @@ TOpen ==
         /\ saved' = <<>> /\ projB' = <<>>
         /\ fw' = [adds |-> {}, downFul |-> {}, upClaimed |-> {}, settledNow |-> {},
                    base0 |-> [e \in E |-> IF e[2] = 1 THEN cs[ch(e[1])].bal_a_msat ELSE cs[ch(e[1])].bal_b_msat],
-                   pol |-> R.policy, shut |-> {}, closeFee |-> [c \in C |-> 0], newInfl |-> {}, crashed |-> {}, liveAtCrash |-> {}, snapKnows |-> <<>>, needSent |-> {}, owed |-> {}, settled |-> FALSE, pays |-> {}, claimedEv |-> {}, sentEv |-> {}, failEv |-> {}, lastMgr |-> <<>>]
+                   pol |-> R.policy, shut |-> {}, closeFee |-> [c \in C |-> 0], newInfl |-> {}, crashed |-> {}, liveAtCrash |-> {}, snapKnows |-> <<>>, needSent |-> {}, owed |-> {}, settled |-> FALSE, pays |-> {}, claimedEv |-> {}, sentEv |-> {}, failEv |-> {}, lastMgr |-> <<>>, cuid |-> <<>>]
 
 \* not part of the commitment protocol; `warning` / `disconnect_peer` ask the transport to drop the
 \* peer (the harness then disconnects, as PeerManager would) -- an `error` is never acceptable
@@ -114,6 +114,11 @@ TMsg ==
   /\ (R.chan # 0 /\ R.kind = "update_add_htlc" /\ ~Closed(EP(R.chan, R.from))) =>
         G1(R.chan \notin fw.shut \/ Has(EP(R.chan, R.from), "out", R.id))
   /\ (R.chan # 0 /\ R.kind = "update_add_htlc") => G2(ForwardTerms(R.from, R.amt, R.cltv, R.hash))
+  \* C09: a forward leaves only after the monitor update that made the upstream HTLC irrevocable is durable
+  /\ (R.chan # 0 /\ R.kind = "update_add_htlc" /\ ~Closed(EP(R.chan, R.from)) /\ ~Has(EP(R.chan, R.from), "out", R.id)) =>
+        \A u \in UpAdds(R.from, R.hash) :
+           LET ue == EP(u.chan, R.from) IN
+           Closed(ue) \/ G9(<<ue, R.hash>> \in DOMAIN fw.cuid /\ Durable(ue, fw.cuid[<<ue, R.hash>>]))
   /\ (R.chan # 0 /\ R.kind \in {"update_fail_htlc", "update_fail_malformed_htlc"} /\ ~Closed(EP(R.chan, R.from)))
         => G2(MayFailUp(R.from, EP(R.chan, R.from), R.id))
   /\ LET k == R.kind  e == EP(R.chan, R.from) IN
@@ -170,9 +175,17 @@ TDeliver ==
 \* ---- a ChannelMonitorUpdate (or a full re-persist) reaches Persist
 StepsOf(kind) == {k \in 1..Len(R.steps) : R.steps[k].k = kind}
 RtOK == R.rt.monitor /\ R.rt.update /\ R.rt.truncated_refused /\ R.rt.commute
+\* the update that made an inbound HTLC irrevocable (the peer's revocation) is remembered per HTLC: a forward
+\* of that HTLC may only leave once this update is durable (C09)
+NewlyCommitted(e) == {x \in hs[e] : x.dir = "in" /\ x.add = 4 /\ <<e, x.hash>> \notin DOMAIN fw.cuid}
 TPersist ==
   /\ IsEvent("persist")
-  /\ UNCHANGED Aux
+  /\ UNCHANGED <<nodeOf, saved, everRAA, projB>>
+  /\ fw' = IF R.has_update /\ ~Closed(EP(R.chan, R.node)) /\ R.kind # "load" /\ StepsOf("commitment_secret") # {}
+            THEN LET e == EP(R.chan, R.node)
+                     new == {<<e, x.hash>> : x \in NewlyCommitted(e)}
+                 IN [fw EXCEPT !.cuid = [k \in DOMAIN @ \cup new |-> IF k \in new THEN R.uid ELSE @[k]]]
+            ELSE fw
   /\ G12(RtOK)
   \* a closed channel accepts no further revocation secret (in particular not a forged one)
   /\ Closed(EP(R.chan, R.node)) => G5(StepsOf("commitment_secret") = {})
